@@ -51,7 +51,7 @@ def run(ck):
     # R: regenerate the keyword facts from the current code, then re-prove
     subprocess.run([sys.executable, os.path.join(common.VERIF, "tools", "gen_keywords.py"), os.path.join(out, "tables.txt")], check=True)
     subprocess.run([sys.executable, os.path.join(common.VERIF, "tools", "gen_spec_keywords.py")], check=True, stdout=subprocess.DEVNULL)
-    if not ck.prove(["Naga.Tie.C16", "Naga.Props.C16"]):
+    if not ck.prove(["Naga.Tie.C16", "Naga.Props.C16", "Naga.Props.Redecl"]):
         search_missing_keyword(ck, out)
     if not ck.driver():
         return
